@@ -130,7 +130,7 @@ func (s *Surface) WriteCell(col uint16, row uint16, cell vaxis.Cell) {
 		row >= s.Size.Height {
 		return
 	}
-	i := (row * s.Size.Width) + col
+	i := (int(row) * int(s.Size.Width)) + int(col)
 	s.Buffer[i] = cell
 }
 
